@@ -243,6 +243,12 @@ fn labels(u: &Universe, info: &CaseInfo, host: HostKind) -> Vec<String> {
     if info.drains > 0 {
         l.push("sched:drain".into());
     }
+    if info.late_spawns > 0 {
+        l.push("sched:task-spawned-on-an-existing-command".into());
+    }
+    if matches!(host, HostKind::Direct) {
+        l.push(format!("direct:inspection-style-{}", u.inspect % 5));
+    }
     if info.garbage > 0 {
         l.push("sched:garbage-to-live-stream".into());
     }
